@@ -63,6 +63,16 @@ Proof.
 Qed.
 Print Assumptions {pid}_twolevel.
 
+(* RevolveCheckpointSchedule, class Revolve (memory only): every N, every number of RAM units, every cost vector (the disk
+   arguments are ignored by this class); budgets RAM = snapshots_in_ram, DISK = 0 *)
+Theorem {pid}_revolve : forall (N ram disk uf ub wd rd : Z) (k : nat), 1 <= N -> 0 <= ram -> (2 <= N -> 1 <= ram) ->
+  exists o0 m ls, run_case (PRev RevConv.KRevolve N ram disk uf ub wd rd) (RevBridge4.rev_xparams N ram) (repeat Next k) = Ok (o0, m, ls) /\\ no_err {e} m /\\ no_raise ls.
+Proof.
+  intros N ram disk uf ub wd rd k H1 H2 H3. destruct (RevolveRun.revolve_run N ram disk uf ub wd rd k H1 H2 H3) as (o0 & m & ls & E & Hm & Hl).
+  exists o0, m, ls. auto using mon_ok_no_err.
+Qed.
+Print Assumptions {pid}_revolve.
+
 (* MixedCheckpointSchedule: every N, every unit count, both storages, both planner paths (memoised / tabulated) *)
 Theorem {pid}_mixed : forall (N s : Z) (sg : storage) (tab : bool) (k : nat),
   1 <= N -> 0 <= s -> (2 <= N -> 1 <= s) -> sg = RAM \\/ sg = DISK ->
@@ -89,9 +99,7 @@ def lifted(new, mod, name, comment):
     return "(* %s *)\nModule M_%s.\nImport %s.\nTheorem %s :\n  %s.\nProof. exact (@%s.%s). Qed.\nPrint Assumptions %s.\nEnd M_%s.\n\n" % (
         comment.replace('*)','* )'), new, mod, new, t.replace('\n','\n  '), mod, name, new, new)
 
-PARTIAL_SAFETY = [
- ('%s_revolve_structural_partial','RevGen','revolve_stream_ok','PARTIAL (Revolve): the whole converted stream of the structural converter is accepted by an executor with RAM budget cm; the bridge from the index-based converter of Model/RevConv.v is not proved yet; DiskRevolve, PeriodicDiskRevolve and HRevolve: validated model + oracle only (DESIGN.md 6)'),
-]
+PARTIAL_SAFETY = []   # DiskRevolve, PeriodicDiskRevolve, HRevolve: validated model + correspondence + oracle only (DESIGN.md 6); see the *_refuted theorems of C03 / C04
 
 TITLES = {}
 import json
@@ -101,9 +109,15 @@ for l in open('/verif/properties.jsonl'):
 files = {}
 for pid, cls in [('C01','C01'),('C02','C02'),('C03','C03'),('C04','C04'),('C08','C08'),('C12','C12')]:
     body = HEAD % (pid, TITLES[pid]) + safety(pid, cls, '')
-    body = body.replace("From CS Require Import Actions", "From CS Require RevGen.\nFrom CS Require Import Actions")
+    body = body.replace("From CS Require Import Actions", "From CS Require RevConv RevBridge4 RevolveRun Refuted.\nFrom CS Require Import Actions")
     if pid == 'C02':
         body += lifted('C02_multistage_terminates','AllocTotal','multistage_terminates','completeness (Multistage): EndReverse is emitted within 6 * TC N S + 1 requests, with no error and no exception on the way, and by then the reference executor has carried out exactly TC N S forward steps')
+    if pid == 'C04':
+        body += lifted('C04_hrevolve_refuted','Refuted','C04_hrevolve_refuted','REFUTED for HRevolve (known finding D8-C04): a parameter tuple of the documented domain whose run on the extracted model reaches EndReverse with a checkpoint left on DISK (first monitor error E_leftover); the witness is HRevolve(4, 1, 1, uf=1, ub=1, wd=0, rd=1), evaluated by vm_compute')
+        body += lifted('C04_disk_revolve_refuted','Refuted','C04_disk_revolve_refuted','REFUTED for DiskRevolve (D8-C04): DiskRevolve(4, 1, uf=1, ub=1, wd=0, rd=1)')
+        body += lifted('C04_periodic_refuted','Refuted','C04_periodic_refuted','REFUTED for PeriodicDiskRevolve (D8-C04): PeriodicDiskRevolve(4, 1, uf=1, ub=1, wd=0, rd=1)')
+    if pid == 'C03':
+        body += lifted('C03_hrevolve_refuted','Refuted','C03_hrevolve_refuted','REFUTED for HRevolve (known finding D8-C03): HRevolve(11, 1, 2, uf=1, ub=1, wd=0, rd=1) holds three DISK checkpoints with two disk units (first monitor error E_budget DISK)')
     for new, mod, name, cm in PARTIAL_SAFETY:
         body += lifted(new % pid, mod, name, cm)
     files[pid] = body
@@ -212,13 +226,17 @@ Theorem C17_mixed_complete : forall (N s : Z) (sg : storage) (tab : bool) (k : n
   exists o0 m ls, run_case (PMixed N s sg tab) (pmx N (Z.min s (N - 1)) sg) (repeat Next k) = Ok (o0, m, ls) /\\ mon_ok m /\\ no_raise ls.
 Proof. exact mixed_run. Qed.
 Print Assumptions C17_mixed_complete.
+Theorem C17_revolve_complete : forall (N ram disk uf ub wd rd : Z) (k : nat), 1 <= N -> 0 <= ram -> (2 <= N -> 1 <= ram) ->
+  exists o0 m ls, run_case (PRev RevConv.KRevolve N ram disk uf ub wd rd) (RevBridge4.rev_xparams N ram) (repeat Next k) = Ok (o0, m, ls) /\\ mon_ok m /\\ no_raise ls.
+Proof. exact RevolveRun.revolve_run. Qed.
+Print Assumptions C17_revolve_complete.
 Theorem C17_twolevel_complete : forall (N P bs : Z) (bst : storage) (tj : traj), 1 <= N -> 1 <= P -> 0 <= bs -> bst = RAM \\/ bst = DISK -> forall k : nat,
   exists o0 m ls, run_case (PTwo P bs bst tj) (ptl N P bs bst) (repeat Next (Z.to_nat (TLBridge.Q N P)) ++ [Fin N] ++ repeat Next (S k)) = Ok (o0, m, ls) /\\ mon_ok m /\\ no_raise ls.
 Proof. exact twolevel_run. Qed.
 Print Assumptions C17_twolevel_complete.
 
 '''
-mk('C17', ['NAdv','AllocProofs','InvalidProofs'], [C17_complete,
+mk('C17', ['NAdv','AllocProofs','InvalidProofs','RevConv','RevBridge4','RevolveRun','RevBridge6'], [C17_complete,
    lifted('C17_multistage_construct_total','AllocTotal','construct_total','the Multistage constructor returns for every tuple of the domain'),
    lifted('C17_allocate_total','AllocTotal','allocate_total','allocate_snapshots (dry run of the schedule with placeholder labels, weighing, top-k) never raises on the domain'),
    lifted('C17_n_advance_total','NAdv','n_advance_spec','n_advance never raises on its domain; range; limiting cases; optimal region'),
@@ -227,9 +245,10 @@ mk('C17', ['NAdv','AllocProofs','InvalidProofs'], [C17_complete,
    lifted('C17_multistage_no_units','InvalidProofs','multistage_no_units','no unit and max_n > 1: the constructor returns, the first next() raises ValueError and the generator is finished -- no action is ever emitted'),
    lifted('C17_mixed_rejects','InvalidProofs','mixed_rejects','Mixed: max_n < 1, no unit for max_n > 1, or a storage other than RAM / DISK: ValueError at construction (both planner paths)'),
    lifted('C17_twolevel_rejects','InvalidProofs','twolevel_rejects','TwoLevel: period < 1 or a binomial storage other than RAM / DISK: ValueError at construction'),
-   lifted('C17_revolve_family_rejects_partial','InvalidProofs','revolve_rejects','PARTIAL (Revolve family): max_n < 1 or no RAM unit for max_n > 1 is an exception at construction; that valid tuples always yield a complete stream is not proved for the Revolve family (correspondence + oracle)')])
+   lifted('C17_revolve_top_total','RevBridge6','revolve_top_total','the Revolve op-list generator (table + recursion) never fails on the domain'),
+   lifted('C17_revolve_family_rejects_partial','InvalidProofs','revolve_rejects','PARTIAL (Revolve family): max_n < 1 or no RAM unit for max_n > 1 is an exception at construction; that valid tuples always yield a complete stream is proved for Revolve (C17_revolve_complete) but not for DiskRevolve, PeriodicDiskRevolve, HRevolve (correspondence + oracle)')])
 C18_runs = safety('C18','C18','')
-mk('C18', ['Repr'], [C18_runs, lifted('C18_z_roundtrip','Repr','z_roundtrip','decimal printing of integers parses back')])
+mk('C18', ['Repr','RevConv','RevBridge4','RevolveRun'], [C18_runs, lifted('C18_z_roundtrip','Repr','z_roundtrip','decimal printing of integers parses back')])
 mk('C19', ['PeriodProofs'], [lifted('C19_periodic_sweep_writes','PeriodProofs','periodic_sweep_writes','disk writes of the forward sweep are exactly at 0, m, 2m, ... while more than m steps remain'),
    lifted('C19_period_closed_form','PeriodProofs','periodic_period_closed_form','the period is beta(cm, tm) with tm the least t such that beta(cm+1, t) uf > wd + rd; independent of N')])
 
